@@ -226,14 +226,18 @@ pub fn p2pkh_script(h160: &[u8; 20]) -> Vec<u8> { let mut s = vec![0x76, 0xa9, 0
 pub const ST_ACTIVE: u64 = 5 | 8 | 16;       // VALID_SCRIPTS | HAVE_DATA | HAVE_UNDO
 pub const ST_HEADER_ONLY: u64 = 2;           // VALID_TREE, no data
 #[derive(Clone, Debug)]
-pub struct IndexRec { pub hash: [u8; 32], pub version: u64, pub height: u64, pub status: u64, pub ntx: u64, pub file: u64, pub offset: u64 }
+pub struct IndexRec { pub hash: [u8; 32], pub version: u64, pub height: u64, pub status: u64, pub ntx: u64, pub file: u64, pub offset: u64, pub header: Option<[u8; 80]> }
 impl IndexRec {
     pub fn value(&self) -> Vec<u8> {
         let mut v = Vec::new();
         v.extend(core_varint(self.version)); v.extend(core_varint(self.height)); v.extend(core_varint(self.status));
-        v.extend(core_varint(self.ntx)); v.extend(core_varint(self.file)); v.extend(core_varint(self.offset));
-        // Core appends nUndoPos and the 80-byte header; the parser must not depend on them
-        v.extend(core_varint(0)); v.extend_from_slice(&[0u8; 80]);
+        v.extend(core_varint(self.ntx));
+        // Core's CDiskBlockIndex: nFile only with HAVE_DATA|HAVE_UNDO, nDataPos only with HAVE_DATA, nUndoPos only with HAVE_UNDO,
+        // then the 80-byte header (the parser must not depend on the undo position or the header)
+        if self.status & (8 | 16) != 0 { v.extend(core_varint(self.file)); }
+        if self.status & 8 != 0 { v.extend(core_varint(self.offset)); }
+        if self.status & 16 != 0 { v.extend(core_varint(0)); }
+        v.extend_from_slice(&self.header.unwrap_or([0u8; 80]));
         v
     }
 }
@@ -266,7 +270,7 @@ impl DataDir {
     /// stores a block and its active index record
     pub fn add(&mut self, no: u64, height: u64, b: &BlockSpec, status: u64) -> u64 {
         let off = self.put_block(no, 0xd9b4bef9, &b.ser(), &[]);
-        self.recs.push(IndexRec { hash: b.hash(), version: b.version as u64, height, status, ntx: b.txs.len() as u64, file: no, offset: off });
+        self.recs.push(IndexRec { hash: b.hash(), version: b.version as u64, height, status, ntx: b.txs.len() as u64, file: no, offset: off, header: None });
         off
     }
     pub fn write(&self) {
